@@ -737,7 +737,8 @@ def check_c02(res, ctx):
                 else:
                     els = [((i * 2654435761) % (1 << (8 * min(sz, 8)))).to_bytes(min(sz, 8), "little").hex() + "00" * (sz - min(sz, 8))
                            for i in range(n)]
-                longl.append("va %d %d %d %s" % (enc, tid, n, " ".join(els)))
+                # (above the default allocation cap of the shim and the model: raise both)
+                longl.append("%sva %d %d %d %s" % ("cap=200000000 " if n * sz > 8000000 else "", enc, tid, n, " ".join(els)))
     for tid in ref.ALL_TIDS:
         if ref.is_arr(tid):
             continue
